@@ -187,7 +187,7 @@ impl MultiRecordLog {
         let next_position = self.in_mem_queues.next_position(queue)?;
         if let Some(position) = position_opt {
             // we accept position in the future, and move forward as required.
-            if position + 1 == next_position {
+            if position.checked_add(1) == Some(next_position) {
                 return Ok(AppendOutcome {
                     last_position: None,
                     wal_bytes_written: 0,
